@@ -34,6 +34,8 @@ type C12Stream struct {
 	// CloseAt: a separate task closes the client's stream once that many bytes
 	// were read in total (0: never), possibly while its reader is parked in Read
 	CloseAt int `json:"close_at,omitempty"`
+	// ServerClose: the accepting side closes the stream once its exchange is complete
+	ServerClose bool `json:"server_close,omitempty"`
 }
 
 type C12Scenario struct {
@@ -81,6 +83,7 @@ type c12Run struct {
 	// timer oracle
 	zeroSince [2]time.Duration
 	hadOpen   [2]int
+	everOpen  [2]bool
 	wasClosed [2]bool
 }
 
@@ -308,7 +311,22 @@ func (r *c12Run) acceptor(t *c12Task, stream net.Conn) {
 	r.sRead += tagLen
 	r.sw.Progress(r.sRead)
 	st := r.states[tag]
-	r.task("acceptor-w", func(t *c12Task) { r.write(t, stream, st, 1, st.plan.Down) })
+	wdone := false
+	r.task("acceptor-w", func(t *c12Task) {
+		r.write(t, stream, st, 1, st.plan.Down)
+		wdone = true
+	})
+	if int(tag) < len(r.sc.Streams) && r.sc.Streams[tag].ServerClose {
+		defer func() {
+			for !wdone && !r.c.Failed() && !r.faultFired() {
+				Sleep(time.Millisecond)
+			}
+			t.inCall = "Stream.Close"
+			st.harnessClosed = true
+			stream.Close()
+			t.inCall = ""
+		}()
+	}
 	if st.plan.HoldReader {
 		// the application is busy elsewhere; a teardown must not wait for it
 		// (virtual time passes only when nothing else can run)
@@ -363,7 +381,11 @@ func (r *c12Run) idle() string {
 			return fmt.Sprintf("count-drift|quiescent moment at %v: side %d has %d open streams in its table but an active-stream count of %d", now, who, open, count)
 		}
 		timeout := time.Duration(r.sc.Sess.InactS) * time.Second
-		if !r.sc.Sess.Singleplex && open == 0 && now > r.zeroSince[who]+timeout+time.Millisecond {
+		singleplex := r.sc.Sess.Singleplex && who == 0 // (the accepting end is never singleplex)
+		if singleplex && open == 0 && r.everOpen[who] {
+			return fmt.Sprintf("singleplex:outlived-stream|quiescent moment at %v: the singleplex session (side %d) has no open stream any more - its single stream was closed - but is still open", now, who)
+		}
+		if !singleplex && open == 0 && now > r.zeroSince[who]+timeout+time.Millisecond {
 			return fmt.Sprintf("timer:late|side %d has had no open stream since %v but is still open at %v (inactivity timeout %v)", who, r.zeroSince[who], now, timeout)
 		}
 	}
@@ -377,7 +399,7 @@ func (r *c12Run) step() {
 		closed := sesh.VerifClosedFlag()
 		if closed && !r.wasClosed[who] {
 			r.wasClosed[who] = true
-			if sesh.TerminalMsg() == "timeout" && r.hadOpen[who] > 0 && !r.sc.Sess.Singleplex {
+			if sesh.TerminalMsg() == "timeout" && r.hadOpen[who] > 0 && !(r.sc.Sess.Singleplex && who == 0) {
 				r.fail("timer:with-open-streams", "side %d closed itself on its inactivity timer at %v while %d streams were open", who, now, r.hadOpen[who])
 			}
 		}
@@ -389,6 +411,9 @@ func (r *c12Run) step() {
 			r.zeroSince[who] = now
 		}
 		r.hadOpen[who] = open
+		if open > 0 {
+			r.everOpen[who] = true
+		}
 	}
 }
 
@@ -400,6 +425,9 @@ func genC12Streams(g *Gen, ns, maxBytes int) []C12Stream {
 		pl.Up = g.Int(0, lim)
 		pl.Down = g.Int(0, lim)
 		s := C12Stream{StreamPlan: pl, CloseEnd: g.Bool(0.3)}
+		if !s.CloseEnd && g.Bool(0.3) {
+			s.ServerClose = true
+		}
 		if g.Bool(0.3) {
 			s.CloseAt = g.Pick(1, 8, 9, 100, 1000, 3000)
 		}
